@@ -1,3 +1,1849 @@
-//! C06 harnesses (see /verif/DESIGN.md section 5).
+//! C06 - equivalent entry points give equivalent answers.
+//!
+//! Pure differential checks: the same symbolic bytes are handed to two (or three) doors of the
+//! real crate and the answers are compared. No reference model. Three families:
+//!
+//! (a) the 12 IP boundary implementations (`ip4_*` / `ip6_*` harnesses),
+//! (b) whole-packet doors: `from_ethernet` vs `from_ether_type` (+14 on error offsets) and
+//!     `from_ether_type(IPV4|IPV6)` vs `from_ip` for the slice based families SlicedPacket and
+//!     LaxSlicedPacket (`pk_*` harnesses; the struct based families did not fit, see there),
+//! (c) `T::read(io::Read)` (and `read_limited`) vs `T::from_slice` for 15 of the 17 header types
+//!     that have a reader (`rd_*` harnesses; not built: Ipv6Extensions, IpHeaders - two ~9 KB
+//!     struct doors in one formula exceed the memory cap).
+//!
+//! Conventions used throughout
+//! * inputs are `&data[..len]` of a symbolic `[u8; N]` with symbolic `len <= N` (memory safety is
+//!   C01's subject, not this one's);
+//! * slices returned by two doors over the same buffer are compared by pointer + length
+//!   (`same_range`), decoded values field by field; variable-length byte fields are compared
+//!   loop-free through one symbolic index (`same_bytes`, "for one arbitrary i" = "for all i"),
+//!   because `==` on slices/arrays is a `memcmp` loop that would force a large unwind value onto
+//!   the decoder loops;
+//! * errors of the different doors have different Rust types; they are mapped onto one canonical
+//!   reason `F` and compared there. Where two faults coexist and the doors legitimately test them
+//!   in a different order only the verdict is required to agree: these tolerances are the
+//!   enumerated `TOL-n` blocks below, nothing else is tolerated;
+//! * `io::Error` values are forgotten (drop glue of `io::Error` is expensive under CBMC).
 
-crate::harnesses! {}
+use crate::sym::{any, any_le, assume};
+use crate::witness;
+use etherparse::err::{Layer, LenError};
+use etherparse::*;
+
+// ------------------------------------------------------------------------------------------
+// small helpers
+// ------------------------------------------------------------------------------------------
+
+#[inline(never)]
+fn forget<T>(v: T) {
+    core::mem::forget(v);
+}
+
+/// both slices are the same sub-range of the same buffer
+fn same_range(a: &[u8], b: &[u8]) -> bool {
+    a.as_ptr() == b.as_ptr() && a.len() == b.len()
+}
+
+/// loop-free content equality: equal length and equal byte at one arbitrary (symbolic) index
+fn same_bytes(a: &[u8], b: &[u8]) {
+    assert!(a.len() == b.len(), "C06: variable-length field has different lengths");
+    let i: usize = any();
+    if i < a.len() {
+        assert!(a[i] == b[i], "C06: variable-length field differs in one byte");
+    }
+}
+
+/// loop-free equality of fixed arrays (`==` on `[u8; K]` is a memcmp loop)
+fn same_arr<const K: usize>(a: &[u8; K], b: &[u8; K]) {
+    let i: usize = any();
+    if i < K {
+        assert!(a[i] == b[i], "C06: address/array field differs");
+    }
+}
+
+fn is_ipv6_ext(n: IpNumber) -> bool {
+    // the extension headers the crate walks (RFC 8200 4.1): hop-by-hop 0, routing 43,
+    // fragment 44, authentication 51, destination options 60
+    n.0 == 0 || n.0 == 43 || n.0 == 44 || n.0 == 51 || n.0 == 60
+}
+
+// ------------------------------------------------------------------------------------------
+// canonical rejection reason
+// ------------------------------------------------------------------------------------------
+
+/// One reason type for the errors of all doors.
+#[derive(Clone, PartialEq, Eq)]
+pub enum F {
+    Len(LenError),
+    /// ip::UnsupportedIpVersion / ipv4::UnexpectedVersion / ipv6::UnexpectedVersion
+    Version(u8),
+    /// IHL < 5
+    Ihl(u8),
+    /// authentication header with payload length 0 (as IPv4 or as IPv6 extension)
+    AuthZeroPayloadLen,
+    HopByHopNotAtStart,
+    Tcp(err::tcp::HeaderError),
+    Macsec(err::macsec::HeaderError),
+    LinuxSll(err::linux_sll::HeaderError),
+}
+
+impl F {
+    fn shifted(self, by: usize) -> F {
+        match self {
+            F::Len(mut l) => {
+                l.layer_start_offset += by;
+                F::Len(l)
+            }
+            o => o,
+        }
+    }
+    fn is_len(&self) -> bool {
+        matches!(self, F::Len(_))
+    }
+}
+
+fn f_ip_hdr(e: err::ip::HeaderError) -> F {
+    use err::ip::HeaderError::*;
+    match e {
+        UnsupportedIpVersion { version_number } => F::Version(version_number),
+        Ipv4HeaderLengthSmallerThanHeader { ihl } => F::Ihl(ihl),
+    }
+}
+fn f_ipv4_hdr(e: err::ipv4::HeaderError) -> F {
+    use err::ipv4::HeaderError::*;
+    match e {
+        UnexpectedVersion { version_number } => F::Version(version_number),
+        HeaderLengthSmallerThanHeader { ihl } => F::Ihl(ihl),
+    }
+}
+fn f_ipv6_hdr(e: err::ipv6::HeaderError) -> F {
+    use err::ipv6::HeaderError::*;
+    match e {
+        UnexpectedVersion { version_number } => F::Version(version_number),
+    }
+}
+fn f_auth(e: err::ip_auth::HeaderError) -> F {
+    match e {
+        err::ip_auth::HeaderError::ZeroPayloadLen => F::AuthZeroPayloadLen,
+    }
+}
+fn f_ipv6_ext(e: err::ipv6_exts::HeaderError) -> F {
+    use err::ipv6_exts::HeaderError::*;
+    match e {
+        HopByHopNotAtStart => F::HopByHopNotAtStart,
+        IpAuth(a) => f_auth(a),
+    }
+}
+fn f_ip_headers(e: err::ip::HeadersError) -> F {
+    use err::ip::HeadersError::*;
+    match e {
+        Ip(e) => f_ip_hdr(e),
+        Ipv4Ext(e) => f_auth(e),
+        Ipv6Ext(e) => f_ipv6_ext(e),
+    }
+}
+fn f_ip_slice(e: err::ip::SliceError) -> F {
+    match e {
+        err::ip::SliceError::Len(l) => F::Len(l),
+        err::ip::SliceError::IpHeaders(e) => f_ip_headers(e),
+    }
+}
+fn f_ip_headers_slice(e: err::ip::HeadersSliceError) -> F {
+    match e {
+        err::ip::HeadersSliceError::Len(l) => F::Len(l),
+        err::ip::HeadersSliceError::Content(e) => f_ip_headers(e),
+    }
+}
+fn f_ip_lax(e: err::ip::LaxHeaderSliceError) -> F {
+    match e {
+        err::ip::LaxHeaderSliceError::Len(l) => F::Len(l),
+        err::ip::LaxHeaderSliceError::Content(e) => f_ip_hdr(e),
+    }
+}
+fn f_ipv4_slice(e: err::ipv4::SliceError) -> F {
+    match e {
+        err::ipv4::SliceError::Len(l) => F::Len(l),
+        err::ipv4::SliceError::Header(e) => f_ipv4_hdr(e),
+        err::ipv4::SliceError::Exts(e) => f_auth(e),
+    }
+}
+fn f_ipv4_hslice(e: err::ipv4::HeaderSliceError) -> F {
+    match e {
+        err::ipv4::HeaderSliceError::Len(l) => F::Len(l),
+        err::ipv4::HeaderSliceError::Content(e) => f_ipv4_hdr(e),
+    }
+}
+fn f_ipv6_slice(e: err::ipv6::SliceError) -> F {
+    match e {
+        err::ipv6::SliceError::Len(l) => F::Len(l),
+        err::ipv6::SliceError::Header(e) => f_ipv6_hdr(e),
+        err::ipv6::SliceError::Exts(e) => f_ipv6_ext(e),
+    }
+}
+fn f_ipv6_hslice(e: err::ipv6::HeaderSliceError) -> F {
+    match e {
+        err::ipv6::HeaderSliceError::Len(l) => F::Len(l),
+        err::ipv6::HeaderSliceError::Content(e) => f_ipv6_hdr(e),
+    }
+}
+fn f_auth_slice(e: err::ip_auth::HeaderSliceError) -> F {
+    match e {
+        err::ip_auth::HeaderSliceError::Len(l) => F::Len(l),
+        err::ip_auth::HeaderSliceError::Content(e) => f_auth(e),
+    }
+}
+fn f_ipv6_ext_slice(e: err::ipv6_exts::HeaderSliceError) -> F {
+    match e {
+        err::ipv6_exts::HeaderSliceError::Len(l) => F::Len(l),
+        err::ipv6_exts::HeaderSliceError::Content(e) => f_ipv6_ext(e),
+    }
+}
+fn f_ip_exts_slice(e: err::ip_exts::HeadersSliceError) -> F {
+    use err::ip_exts::HeaderError::*;
+    match e {
+        err::ip_exts::HeadersSliceError::Len(l) => F::Len(l),
+        err::ip_exts::HeadersSliceError::Content(Ipv4Ext(e)) => f_auth(e),
+        err::ip_exts::HeadersSliceError::Content(Ipv6Ext(e)) => f_ipv6_ext(e),
+    }
+}
+fn f_packet(e: err::packet::SliceError) -> F {
+    use err::packet::SliceError::*;
+    match e {
+        Len(l) => F::Len(l),
+        LinuxSll(e) => F::LinuxSll(e),
+        Macsec(e) => F::Macsec(e),
+        Ip(e) => f_ip_hdr(e),
+        Ipv4(e) => f_ipv4_hdr(e),
+        Ipv6(e) => f_ipv6_hdr(e),
+        Ipv4Exts(e) => f_auth(e),
+        Ipv6Exts(e) => f_ipv6_ext(e),
+        Tcp(e) => F::Tcp(e),
+    }
+}
+
+/// stop error of a lax door: canonical reason + layer
+type Stop = Option<(F, Layer)>;
+
+fn same_stop(a: &Stop, b: &Stop) {
+    match (a, b) {
+        (None, None) => {}
+        (Some((fa, la)), Some((fb, lb))) => {
+            assert!(fa == fb, "C06: lax doors stop for different reasons");
+            assert!(la == lb, "C06: lax doors name different stop layers");
+        }
+        _ => assert!(false, "C06: one lax door reports a stop error, the other does not"),
+    }
+}
+
+// ------------------------------------------------------------------------------------------
+// value comparators (field by field, loop free)
+// ------------------------------------------------------------------------------------------
+
+fn same_ipv4_header(a: &Ipv4Header, b: &Ipv4Header) {
+    assert!(a.dscp == b.dscp);
+    assert!(a.ecn == b.ecn);
+    assert!(a.total_len == b.total_len);
+    assert!(a.identification == b.identification);
+    assert!(a.dont_fragment == b.dont_fragment);
+    assert!(a.more_fragments == b.more_fragments);
+    assert!(a.fragment_offset == b.fragment_offset);
+    assert!(a.time_to_live == b.time_to_live);
+    assert!(a.protocol == b.protocol);
+    assert!(a.header_checksum == b.header_checksum);
+    same_arr(&a.source, &b.source);
+    same_arr(&a.destination, &b.destination);
+    same_bytes(a.options.as_slice(), b.options.as_slice());
+}
+
+fn same_ipv6_header(a: &Ipv6Header, b: &Ipv6Header) {
+    assert!(a.traffic_class == b.traffic_class);
+    assert!(a.flow_label == b.flow_label);
+    assert!(a.payload_length == b.payload_length);
+    assert!(a.next_header == b.next_header);
+    assert!(a.hop_limit == b.hop_limit);
+    same_arr(&a.source, &b.source);
+    same_arr(&a.destination, &b.destination);
+}
+
+fn same_auth(a: &IpAuthHeader, b: &IpAuthHeader) {
+    assert!(a.next_header == b.next_header);
+    assert!(a.spi == b.spi);
+    assert!(a.sequence_number == b.sequence_number);
+    same_bytes(a.raw_icv(), b.raw_icv());
+}
+
+fn same_raw_ext(a: &Ipv6RawExtHeader, b: &Ipv6RawExtHeader) {
+    assert!(a.next_header == b.next_header);
+    same_bytes(a.payload(), b.payload());
+}
+
+fn same_frag(a: &Ipv6FragmentHeader, b: &Ipv6FragmentHeader) {
+    assert!(a.next_header == b.next_header);
+    assert!(a.fragment_offset == b.fragment_offset);
+    assert!(a.more_fragments == b.more_fragments);
+    assert!(a.identification == b.identification);
+}
+
+fn same_opt<T>(a: &Option<T>, b: &Option<T>, f: fn(&T, &T)) {
+    match (a, b) {
+        (None, None) => {}
+        (Some(x), Some(y)) => f(x, y),
+        _ => assert!(false, "C06: optional header present behind one door only"),
+    }
+}
+
+fn same_ipv4_exts(a: &Ipv4Extensions, b: &Ipv4Extensions) {
+    same_opt(&a.auth, &b.auth, same_auth);
+}
+
+
+
+
+fn same_ip_payload(a: &IpPayloadSlice, b: &IpPayloadSlice) {
+    assert!(a.ip_number == b.ip_number, "C06: payload ip_number differs");
+    assert!(a.fragmented == b.fragmented, "C06: fragmented flag differs");
+    assert!(a.len_source == b.len_source, "C06: payload len_source differs");
+    assert!(same_range(a.payload, b.payload), "C06: payload range differs");
+}
+
+fn same_lax_ip_payload(a: &LaxIpPayloadSlice, b: &LaxIpPayloadSlice) {
+    assert!(a.incomplete == b.incomplete, "C06: incomplete flag differs");
+    assert!(a.ip_number == b.ip_number, "C06: payload ip_number differs");
+    assert!(a.fragmented == b.fragmented, "C06: fragmented flag differs");
+    assert!(a.len_source == b.len_source, "C06: payload len_source differs");
+    assert!(same_range(a.payload, b.payload), "C06: payload range differs");
+}
+
+fn same_auth_slice_opt(a: Option<IpAuthHeaderSlice>, b: Option<IpAuthHeaderSlice>) {
+    match (a, b) {
+        (None, None) => {}
+        (Some(x), Some(y)) => assert!(same_range(x.slice(), y.slice()), "C06: auth header range differs"),
+        _ => assert!(false, "C06: auth header present behind one door only"),
+    }
+}
+
+fn same_ipv4_slice(a: &Ipv4Slice, b: &Ipv4Slice) {
+    assert!(same_range(a.header().slice(), b.header().slice()), "C06: IPv4 header range differs");
+    same_auth_slice_opt(a.extensions().auth, b.extensions().auth);
+    same_ip_payload(a.payload(), b.payload());
+    assert!(a.payload_ip_number() == b.payload_ip_number());
+    assert!(a.is_payload_fragmented() == b.is_payload_fragmented());
+}
+
+fn same_lax_ipv4_slice(a: &LaxIpv4Slice, b: &LaxIpv4Slice) {
+    assert!(same_range(a.header().slice(), b.header().slice()), "C06: IPv4 header range differs");
+    same_auth_slice_opt(a.extensions().auth, b.extensions().auth);
+    same_lax_ip_payload(a.payload(), b.payload());
+    assert!(a.payload_ip_number() == b.payload_ip_number());
+    assert!(a.is_payload_fragmented() == b.is_payload_fragmented());
+}
+
+fn same_ipv6_exts_slice(a: &Ipv6ExtensionsSlice, b: &Ipv6ExtensionsSlice) {
+    assert!(same_range(a.slice(), b.slice()), "C06: IPv6 extension range differs");
+    assert!(a.first_header() == b.first_header(), "C06: first extension header differs");
+    assert!(a.is_fragmenting_payload() == b.is_fragmenting_payload());
+}
+
+fn same_ipv6_slice(a: &Ipv6Slice, b: &Ipv6Slice) {
+    assert!(same_range(a.header().slice(), b.header().slice()), "C06: IPv6 header range differs");
+    same_ipv6_exts_slice(a.extensions(), b.extensions());
+    same_ip_payload(a.payload(), b.payload());
+    assert!(a.is_payload_fragmented() == b.is_payload_fragmented());
+}
+
+fn same_lax_ipv6_slice(a: &LaxIpv6Slice, b: &LaxIpv6Slice) {
+    assert!(same_range(a.header().slice(), b.header().slice()), "C06: IPv6 header range differs");
+    same_ipv6_exts_slice(a.extensions(), b.extensions());
+    same_lax_ip_payload(a.payload(), b.payload());
+    assert!(a.is_payload_fragmented() == b.is_payload_fragmented());
+}
+
+// ------------------------------------------------------------------------------------------
+// (a) IP boundary implementations, IPv4 side (+ empty slice and unsupported versions)
+// ------------------------------------------------------------------------------------------
+//
+// TOL-1 (all IPv4 pairs): slice shorter than 20 bytes. The version-specific doors
+//   (`Ipv4Slice`, `LaxIpv4Slice`, `from_ipv4_slice*`) and `IpHeaders::from_slice*` demand the
+//   minimum header (20 bytes, layer Ipv4Header) before looking at any content; `IpSlice` /
+//   `LaxIpSlice` have already read byte 0 for the dispatch and report what that byte says
+//   (unsupported version, IHL < 5, or a length error demanding IHL*4 bytes; for the empty slice a
+//   1-byte demand on layer IpHeader). Both faults are real, only the order differs: verdict must
+//   agree, and if both are length errors they must agree on (len, len_source, offset).
+//   The version-dispatching struct door versus the version-specific one on a slice whose nibble is
+//   neither 4 nor 6 falls under the same rule (Version(v) versus "need 20 bytes").
+
+/// `a`: door that dispatched on byte 0, `b`: door that demands 20 bytes first
+fn cmp_faults_v4(len: usize, fa: &F, fb: &F) {
+    if len < 20 {
+        // TOL-1
+        if let (F::Len(x), F::Len(y)) = (fa, fb) {
+            assert!(x.len == y.len && x.len_source == y.len_source && x.layer_start_offset == y.layer_start_offset,
+                "C06: coexisting length faults disagree on the measured length");
+        }
+    } else {
+        assert!(fa == fb, "C06: IPv4 doors reject for different reasons");
+    }
+}
+
+fn not_v6(s: &[u8]) {
+    // the IPv6 side (extension chains, the expensive kernel) has its own harnesses
+    assume(s.is_empty() || s[0] >> 4 != 6);
+}
+
+/// IpSlice::from_slice vs Ipv4Slice::from_slice
+pub fn ip4_strict_slices<const N: usize>() {
+    let data: [u8; N] = any();
+    let len = any_le(N);
+    let s = &data[..len];
+    not_v6(s);
+    let a = IpSlice::from_slice(s);
+    let b = Ipv4Slice::from_slice(s);
+    match (a, b) {
+        (Ok(a), Ok(b)) => {
+            witness!(b.extensions().auth.is_some() && b.payload().payload.len() > 0, "ok_auth_payload");
+            witness!(b.payload().payload.len() + b.header().slice().len() < len, "ok_trailing_bytes");
+            match &a {
+                IpSlice::Ipv4(a4) => same_ipv4_slice(a4, &b),
+                IpSlice::Ipv6(_) => assert!(false, "C06: IpSlice dispatched an IPv4 packet to IPv6"),
+            }
+            same_ip_payload(a.payload(), b.payload());
+            assert!(a.payload_ip_number() == b.payload_ip_number());
+            assert!(a.is_fragmenting_payload() == b.is_payload_fragmented());
+        }
+        (Err(ea), Err(eb)) => {
+            let (fa, fb) = (f_ip_slice(ea), f_ipv4_slice(eb));
+            witness!(len >= 20 && fa.is_len(), "err_len_shared");
+            witness!(len >= 20 && fa == F::AuthZeroPayloadLen, "err_auth_content");
+            witness!(len >= 20 && matches!(fa, F::Version(_)), "err_version");
+            witness!(len < 20 && fa != fb, "tol1_order_of_checks");
+            cmp_faults_v4(len, &fa, &fb);
+        }
+        _ => assert!(false, "C06: IpSlice and Ipv4Slice disagree on accept/reject"),
+    }
+}
+
+fn lax_stop_from_auth(e: Option<err::ip_auth::HeaderSliceError>) -> Stop {
+    // the IPv4-specific lax doors return the bare authentication header error; the layer is implied
+    e.map(|e| (f_auth_slice(e), Layer::IpAuthHeader))
+}
+fn lax_stop_from_ipv6_ext(e: Option<(err::ipv6_exts::HeaderSliceError, Layer)>) -> Stop {
+    e.map(|(e, l)| (f_ipv6_ext_slice(e), l))
+}
+fn lax_stop_from_ip_exts(e: Option<(err::ip_exts::HeadersSliceError, Layer)>) -> Stop {
+    e.map(|(e, l)| (f_ip_exts_slice(e), l))
+}
+
+/// LaxIpSlice::from_slice vs LaxIpv4Slice::from_slice
+pub fn ip4_lax_slices<const N: usize>() {
+    let data: [u8; N] = any();
+    let len = any_le(N);
+    let s = &data[..len];
+    not_v6(s);
+    let a = LaxIpSlice::from_slice(s);
+    let b = LaxIpv4Slice::from_slice(s);
+    match (a, b) {
+        (Ok((a, sa)), Ok((b, sb))) => {
+            witness!(b.payload().incomplete, "ok_incomplete");
+            witness!(sb.is_some() && b.payload().len_source == LenSource::Slice, "ok_stop_slice_limited");
+            witness!(b.extensions().auth.is_some(), "ok_auth");
+            match &a {
+                LaxIpSlice::Ipv4(a4) => same_lax_ipv4_slice(a4, &b),
+                LaxIpSlice::Ipv6(_) => assert!(false, "C06: LaxIpSlice dispatched an IPv4 packet to IPv6"),
+            }
+            same_lax_ip_payload(a.payload(), b.payload());
+            assert!(a.payload_ip_number() == b.payload_ip_number());
+            assert!(a.is_fragmenting_payload() == b.is_payload_fragmented());
+            same_stop(&lax_stop_from_ipv6_ext(sa), &lax_stop_from_auth(sb));
+        }
+        (Err(ea), Err(eb)) => {
+            let (fa, fb) = (f_ip_lax(ea), f_ipv4_hslice(eb));
+            witness!(len >= 20 && fa.is_len(), "err_len_shared");
+            witness!(len < 20 && fa != fb, "tol1_order_of_checks");
+            cmp_faults_v4(len, &fa, &fb);
+        }
+        _ => assert!(false, "C06: LaxIpSlice and LaxIpv4Slice disagree on accept/reject"),
+    }
+}
+
+// ---- struct doors -------------------------------------------------------------------------
+//
+// Cost note (measured): every door that returns `IpHeaders` drags a ~9 KB enum (2 KB buffers of
+// the raw extension headers, 1 KB ICV buffer) through CBMC; one such door costs 3-8 GB, two in one
+// harness exceed the 20 GB cap. The struct doors are therefore compared pairwise against the slice
+// door of the same kind (values behind the struct against the accessors of the slice), and the
+// chain  from_slice == IpSlice == Ipv4Slice/Ipv6Slice == from_ipv4_slice/from_ipv6_slice  closes
+// by transitivity of equality (every link compares the same observables).
+
+/// values of the struct door == accessors of the slice door (IPv4).
+/// `deep`: also the bytes of the variable-length fields, otherwise only their lengths.
+fn v4_struct_vs_slice(h: &Ipv4Header, e: &Ipv4Extensions, hs: &Ipv4HeaderSlice, es: &Ipv4ExtensionsSlice, deep: bool) {
+    assert!(h.dscp == hs.dcp());
+    assert!(h.ecn == hs.ecn());
+    assert!(h.total_len == hs.total_len());
+    assert!(h.identification == hs.identification());
+    assert!(h.dont_fragment == hs.dont_fragment());
+    assert!(h.more_fragments == hs.more_fragments());
+    assert!(h.fragment_offset == hs.fragments_offset());
+    assert!(h.time_to_live == hs.ttl());
+    assert!(h.protocol == hs.protocol());
+    assert!(h.header_checksum == hs.header_checksum());
+    if deep {
+        same_arr(&h.source, &hs.source());
+        same_arr(&h.destination, &hs.destination());
+    } else {
+        // same equality without a symbolic index into the ~9 KB IpHeaders value (memory)
+        assert!(u32::from_be_bytes(h.source) == u32::from_be_bytes(hs.source()));
+        assert!(u32::from_be_bytes(h.destination) == u32::from_be_bytes(hs.destination()));
+    }
+    assert!(h.header_len() == hs.slice().len());
+    if deep {
+        same_bytes(h.options.as_slice(), hs.options());
+    } else {
+        assert!(h.options.len() == hs.options().len());
+    }
+    match (&e.auth, &es.auth) {
+        (None, None) => {}
+        (Some(a), Some(b)) => {
+            assert!(a.next_header == b.next_header());
+            assert!(a.spi == b.spi());
+            assert!(a.sequence_number == b.sequence_number());
+            assert!(a.header_len() == b.slice().len());
+            if deep {
+                same_bytes(a.raw_icv(), b.raw_icv());
+            } else {
+                assert!(a.raw_icv().len() == b.raw_icv().len());
+            }
+        }
+        _ => assert!(false, "C06: auth header present behind one door only"),
+    }
+}
+
+/// values of the struct door == accessors of the slice door (IPv6 base header; extension area by
+/// total length, presence and fragmentation flag)
+fn v6_struct_vs_slice(h: &Ipv6Header, e: &Ipv6Extensions, hs: &Ipv6HeaderSlice, es: &Ipv6ExtensionsSlice) {
+    v6_struct_vs_slice_opt(h, e, hs, es, true)
+}
+
+/// `indexed`: compare the addresses through a symbolic index (as everywhere else) or, for the
+/// memory-bound dispatch harnesses, as two 128-bit integers (the same equality)
+fn v6_struct_vs_slice_opt(h: &Ipv6Header, e: &Ipv6Extensions, hs: &Ipv6HeaderSlice, es: &Ipv6ExtensionsSlice, indexed: bool) {
+    assert!(h.traffic_class == hs.traffic_class());
+    assert!(h.flow_label == hs.flow_label());
+    assert!(h.payload_length == hs.payload_length());
+    assert!(h.next_header == hs.next_header());
+    assert!(h.hop_limit == hs.hop_limit());
+    if indexed {
+        same_arr(&h.source, &hs.source());
+        same_arr(&h.destination, &hs.destination());
+    } else {
+        assert!(u128::from_be_bytes(h.source) == u128::from_be_bytes(hs.source()));
+        assert!(u128::from_be_bytes(h.destination) == u128::from_be_bytes(hs.destination()));
+    }
+    assert!(e.header_len() == es.slice().len(), "C06: struct and slice door consumed different extension bytes");
+    assert!(e.is_empty() == es.is_empty());
+    assert!(e.is_fragmenting_payload() == es.is_fragmenting_payload());
+}
+
+/// IpHeaders::from_ipv4_slice vs Ipv4Slice::from_slice
+pub fn ip4_hdr_strict<const N: usize>() {
+    let data: [u8; N] = any();
+    let len = any_le(N);
+    let s = &data[..len];
+    let a = IpHeaders::from_ipv4_slice(s);
+    let b = Ipv4Slice::from_slice(s);
+    match (a, b) {
+        (Ok((ha, pa)), Ok(b)) => {
+            witness!(b.extensions().auth.is_some() && pa.payload.len() > 0, "ok_auth_payload");
+            witness!(b.header().options().len() > 0, "ok_options");
+            match &ha {
+                IpHeaders::Ipv4(h, e) => v4_struct_vs_slice(h, e, &b.header(), &b.extensions(), true),
+                _ => assert!(false, "C06: from_ipv4_slice returned IPv6 headers"),
+            }
+            same_ip_payload(&pa, b.payload());
+        }
+        (Err(ea), Err(eb)) => {
+            let (fa, fb) = (f_ipv4_slice(ea), f_ipv4_slice(eb));
+            witness!(fa.is_len() && len >= 20, "err_len_behind_header");
+            witness!(fa == F::AuthZeroPayloadLen, "err_auth_content");
+            // same order of checks in both doors: no tolerance
+            assert!(fa == fb, "C06: from_ipv4_slice and Ipv4Slice reject for different reasons");
+        }
+        _ => assert!(false, "C06: from_ipv4_slice and Ipv4Slice disagree on accept/reject"),
+    }
+}
+
+/// IpHeaders::from_ipv4_slice_lax vs LaxIpv4Slice::from_slice
+pub fn ip4_hdr_lax<const N: usize>() {
+    let data: [u8; N] = any();
+    let len = any_le(N);
+    let s = &data[..len];
+    let a = IpHeaders::from_ipv4_slice_lax(s);
+    let b = LaxIpv4Slice::from_slice(s);
+    match (a, b) {
+        (Ok((ha, pa, sa)), Ok((b, sb))) => {
+            witness!(pa.incomplete, "ok_incomplete");
+            witness!(sa.is_some() && pa.len_source == LenSource::Slice, "ok_stop_slice_limited");
+            witness!(b.extensions().auth.is_some(), "ok_auth");
+            match &ha {
+                IpHeaders::Ipv4(h, e) => v4_struct_vs_slice(h, e, &b.header(), &b.extensions(), true),
+                _ => assert!(false, "C06: from_ipv4_slice_lax returned IPv6 headers"),
+            }
+            same_lax_ip_payload(&pa, b.payload());
+            same_stop(&lax_stop_from_auth(sa), &lax_stop_from_auth(sb));
+        }
+        (Err(ea), Err(eb)) => {
+            let (fa, fb) = (f_ip_lax(ea), f_ipv4_hslice(eb));
+            witness!(matches!(fa, F::Ihl(_)), "err_ihl");
+            assert!(fa == fb, "C06: from_ipv4_slice_lax and LaxIpv4Slice reject for different reasons");
+        }
+        _ => assert!(false, "C06: from_ipv4_slice_lax and LaxIpv4Slice disagree on accept/reject"),
+    }
+}
+
+// ------------------------------------------------------------------------------------------
+// (a) IP boundary implementations, IPv6 side
+// ------------------------------------------------------------------------------------------
+//
+// TOL-2 (IPv6, version-specific door versus dispatching door on a slice whose nibble is neither 4
+//   nor 6, shorter than 40 bytes): the IPv6-specific door demands 40 bytes before it looks at the
+//   version, the dispatching door has read the nibble. Same rule as TOL-1.
+// TOL-3 (IPv6, struct doors versus slice doors): `Ipv6Extensions` can hold each extension header
+//   once (destination options twice); the struct doors stop - documented in
+//   `Ipv6Extensions::from_slice` - in front of the first header that no longer fits and hand it
+//   back as payload (ip_number is then an extension header number), the slice doors walk on.
+//   When the struct door stopped for that reason only the base header and the verdict "the bytes up
+//   to the stop were accepted" are compared. (Not reachable inside the bound of the struct
+//   harnesses below - no complete extension header fits - kept so that a larger bound does not
+//   turn the documented difference into an alarm.)
+
+fn not_v4(s: &[u8]) {
+    // the IPv4 side is decided by the ip4_* harnesses
+    assume(s.is_empty() || s[0] >> 4 != 4);
+}
+
+/// `a`: door that dispatched on byte 0, `b`: IPv6-specific door that demands 40 bytes first
+fn cmp_faults_v6(len: usize, v6: bool, fa: &F, fb: &F) {
+    if !v6 && len < 40 {
+        // TOL-2
+        if let (F::Len(x), F::Len(y)) = (fa, fb) {
+            assert!(x.len == y.len && x.len_source == y.len_source && x.layer_start_offset == y.layer_start_offset,
+                "C06: coexisting length faults disagree on the measured length");
+        }
+    } else {
+        assert!(fa == fb, "C06: IPv6 doors reject for different reasons");
+    }
+}
+
+/// IpSlice::from_slice vs Ipv6Slice::from_slice
+pub fn ip6_strict_slices<const N: usize>() {
+    let data: [u8; N] = any();
+    let len = any_le(N);
+    let s = &data[..len];
+    not_v4(s);
+    let v6 = len > 0 && s[0] >> 4 == 6;
+    let a = IpSlice::from_slice(s);
+    let b = Ipv6Slice::from_slice(s);
+    match (a, b) {
+        (Ok(a), Ok(b)) => {
+            witness!(!b.extensions().is_empty(), "ok_ext");
+            witness!(b.payload().len_source == LenSource::Slice && b.payload().payload.len() > 0, "ok_payload_len_zero");
+            witness!(b.payload().len_source == LenSource::Ipv6HeaderPayloadLen && 40 + b.header().payload_length() as usize + 1 <= len, "ok_trailing_bytes");
+            match &a {
+                IpSlice::Ipv6(a6) => same_ipv6_slice(a6, &b),
+                IpSlice::Ipv4(_) => assert!(false, "C06: IpSlice dispatched an IPv6 packet to IPv4"),
+            }
+            same_ip_payload(a.payload(), b.payload());
+            assert!(a.payload_ip_number() == b.payload().ip_number);
+            assert!(a.is_fragmenting_payload() == b.is_payload_fragmented());
+        }
+        (Err(ea), Err(eb)) => {
+            let (fa, fb) = (f_ip_slice(ea), f_ipv6_slice(eb));
+            witness!(v6 && len >= 40 && fa.is_len() && matches!(&fa, F::Len(l) if l.layer_start_offset == 40), "err_len_in_ext");
+            witness!(v6 && len >= 40 && matches!(&fa, F::Len(l) if l.layer == Layer::Ipv6Packet), "err_len_payload");
+            witness!(!v6 && len < 40 && fa != fb, "tol2_order_of_checks");
+            cmp_faults_v6(len, v6, &fa, &fb);
+        }
+        _ => assert!(false, "C06: IpSlice and Ipv6Slice disagree on accept/reject"),
+    }
+}
+
+/// LaxIpSlice::from_slice vs LaxIpv6Slice::from_slice
+pub fn ip6_lax_slices<const N: usize>() {
+    let data: [u8; N] = any();
+    let len = any_le(N);
+    let s = &data[..len];
+    not_v4(s);
+    let v6 = len > 0 && s[0] >> 4 == 6;
+    let a = LaxIpSlice::from_slice(s);
+    let b = LaxIpv6Slice::from_slice(s);
+    match (a, b) {
+        (Ok((a, sa)), Ok((b, sb))) => {
+            witness!(b.payload().incomplete, "ok_incomplete");
+            witness!(sb.is_some() && b.payload().len_source == LenSource::Slice, "ok_stop_slice_limited");
+            witness!(sb.is_some() && b.payload().len_source == LenSource::Ipv6HeaderPayloadLen, "ok_stop_header_limited");
+            match &a {
+                LaxIpSlice::Ipv6(a6) => same_lax_ipv6_slice(a6, &b),
+                LaxIpSlice::Ipv4(_) => assert!(false, "C06: LaxIpSlice dispatched an IPv6 packet to IPv4"),
+            }
+            same_lax_ip_payload(a.payload(), b.payload());
+            assert!(a.payload_ip_number() == b.payload().ip_number);
+            assert!(a.is_fragmenting_payload() == b.is_payload_fragmented());
+            same_stop(&lax_stop_from_ipv6_ext(sa), &lax_stop_from_ipv6_ext(sb));
+        }
+        (Err(ea), Err(eb)) => {
+            let (fa, fb) = (f_ip_lax(ea), f_ipv6_hslice(eb));
+            witness!(v6 && fa.is_len(), "err_len_shared");
+            witness!(!v6 && len < 40 && fa != fb, "tol2_order_of_checks");
+            cmp_faults_v6(len, v6, &fa, &fb);
+        }
+        _ => assert!(false, "C06: LaxIpSlice and LaxIpv6Slice disagree on accept/reject"),
+    }
+}
+
+/// IpHeaders::from_ipv6_slice vs Ipv6Slice::from_slice
+pub fn ip6_hdr_strict<const N: usize>() {
+    let data: [u8; N] = any();
+    let len = any_le(N);
+    let s = &data[..len];
+    let a = IpHeaders::from_ipv6_slice(s);
+    let b = Ipv6Slice::from_slice(s);
+    match (a, b) {
+        (Ok((ha, pa)), Ok(b)) => {
+            witness!(pa.len_source == LenSource::Slice && pa.payload.len() > 0, "ok_payload_len_zero");
+            witness!(pa.len_source == LenSource::Ipv6HeaderPayloadLen && pa.payload.len() > 0, "ok_payload");
+            match &ha {
+                IpHeaders::Ipv6(h, e) => {
+                    if is_ipv6_ext(pa.ip_number) {
+                        // TOL-3: struct door stopped in front of a header it cannot store
+                        same_ipv6_header(h, &b.header().to_header());
+                    } else {
+                        v6_struct_vs_slice(h, e, &b.header(), b.extensions());
+                        same_ip_payload(&pa, b.payload());
+                    }
+                }
+                _ => assert!(false, "C06: from_ipv6_slice returned IPv4 headers"),
+            }
+        }
+        (Err(ea), Err(eb)) => {
+            let (fa, fb) = (f_ipv6_slice(ea), f_ipv6_slice(eb));
+            witness!(matches!(&fa, F::Len(l) if l.layer == Layer::Ipv6Packet), "err_len_payload");
+            witness!(matches!(&fa, F::Len(l) if l.layer_start_offset == 40 && l.len_source == LenSource::Ipv6HeaderPayloadLen), "err_len_in_ext_header_limited");
+            witness!(matches!(&fa, F::Len(l) if l.layer_start_offset == 40 && l.len_source == LenSource::Slice), "err_len_in_ext_slice_limited");
+            // (the pinned tree once reported len_source Ipv6HeaderPayloadLen from Ipv6Slice/IpSlice for
+            // a truncated extension header when payload_length was 0 and the slice was the limit,
+            // while the struct doors said Slice - fixed in /repo 73a3d85; this equality is what
+            // keeps it fixed)
+            assert!(fa == fb, "C06: from_ipv6_slice and Ipv6Slice reject for different reasons");
+        }
+        (Ok((_, pa)), Err(eb)) => {
+            // TOL-3 again: the slice door walked into a header the struct door handed back as payload
+            forget(eb);
+            assert!(is_ipv6_ext(pa.ip_number), "C06: from_ipv6_slice accepts what Ipv6Slice rejects");
+        }
+        _ => assert!(false, "C06: from_ipv6_slice rejects what Ipv6Slice accepts"),
+    }
+}
+
+/// IpHeaders::from_ipv6_slice_lax vs LaxIpv6Slice::from_slice
+pub fn ip6_hdr_lax<const N: usize>() {
+    let data: [u8; N] = any();
+    let len = any_le(N);
+    let s = &data[..len];
+    let a = IpHeaders::from_ipv6_slice_lax(s);
+    let b = LaxIpv6Slice::from_slice(s);
+    match (a, b) {
+        (Ok((ha, pa, sa)), Ok((b, sb))) => {
+            witness!(pa.incomplete, "ok_incomplete");
+            witness!(sa.is_some() && pa.len_source == LenSource::Slice, "ok_stop_slice_limited");
+            witness!(sa.is_some() && pa.len_source == LenSource::Ipv6HeaderPayloadLen, "ok_stop_header_limited");
+            match &ha {
+                IpHeaders::Ipv6(h, e) => {
+                    if sa.is_none() && is_ipv6_ext(pa.ip_number) {
+                        // TOL-3
+                        same_ipv6_header(h, &b.header().to_header());
+                    } else {
+                        v6_struct_vs_slice(h, e, &b.header(), b.extensions());
+                        same_lax_ip_payload(&pa, b.payload());
+                        same_stop(&lax_stop_from_ipv6_ext(sa), &lax_stop_from_ipv6_ext(sb));
+                    }
+                }
+                _ => assert!(false, "C06: from_ipv6_slice_lax returned IPv4 headers"),
+            }
+        }
+        (Err(ea), Err(eb)) => {
+            let (fa, fb) = (f_ipv6_hslice(ea), f_ipv6_hslice(eb));
+            witness!(matches!(fa, F::Version(_)), "err_version");
+            assert!(fa == fb, "C06: from_ipv6_slice_lax and LaxIpv6Slice reject for different reasons");
+        }
+        _ => assert!(false, "C06: from_ipv6_slice_lax and LaxIpv6Slice disagree on accept/reject"),
+    }
+}
+
+// ---- dispatching struct doors (both versions in one harness: both code paths are part of the
+//      formula anyway, an assumption on the nibble does not make it smaller)
+
+/// IpHeaders::from_slice vs IpSlice::from_slice
+pub fn ip_hdr_strict_dispatch<const N: usize>() {
+    let data: [u8; N] = any();
+    let len = any_le(N);
+    let s = &data[..len];
+    let a = IpHeaders::from_slice(s);
+    let b = IpSlice::from_slice(s);
+    let v4 = len > 0 && s[0] >> 4 == 4;
+    match (a, b) {
+        (Ok((ha, pa)), Ok(b)) => {
+            witness!(v4 && pa.payload.len() > 0, "ok_v4_payload");
+            witness!(!v4 && pa.payload.len() > 0, "ok_v6_payload");
+            match (&ha, &b) {
+                (IpHeaders::Ipv4(h, e), IpSlice::Ipv4(b4)) => {
+                    v4_struct_vs_slice(h, e, &b4.header(), &b4.extensions(), false);
+                    same_ip_payload(&pa, b.payload());
+                }
+                (IpHeaders::Ipv6(h, e), IpSlice::Ipv6(b6)) => {
+                    if is_ipv6_ext(pa.ip_number) {
+                        // TOL-3
+                        same_ipv6_header(h, &b6.header().to_header());
+                    } else {
+                        v6_struct_vs_slice_opt(h, e, &b6.header(), b6.extensions(), false);
+                        same_ip_payload(&pa, b.payload());
+                    }
+                }
+                _ => assert!(false, "C06: from_slice and IpSlice disagree on the IP version"),
+            }
+        }
+        (Err(ea), Err(eb)) => {
+            let (fa, fb) = (f_ip_headers_slice(ea), f_ip_slice(eb));
+            witness!(matches!(fa, F::Version(_)), "err_version");
+            witness!(v4 && len < 20 && fa != fb, "tol1_order_of_checks");
+            if v4 {
+                // TOL-1: IpSlice looks at the IHL before it demands 20 bytes
+                cmp_faults_v4(len, &fb, &fa);
+            } else {
+                assert!(fa == fb, "C06: from_slice and IpSlice reject for different reasons");
+            }
+        }
+        (Ok((_, pa)), Err(eb)) => {
+            forget(eb);
+            // TOL-3
+            assert!(!v4 && is_ipv6_ext(pa.ip_number), "C06: from_slice accepts what IpSlice rejects");
+        }
+        _ => assert!(false, "C06: from_slice rejects what IpSlice accepts"),
+    }
+}
+
+/// IpHeaders::from_slice_lax vs LaxIpSlice::from_slice
+pub fn ip_hdr_lax_dispatch<const N: usize>() {
+    let data: [u8; N] = any();
+    let len = any_le(N);
+    let s = &data[..len];
+    let a = IpHeaders::from_slice_lax(s);
+    let b = LaxIpSlice::from_slice(s);
+    let v4 = len > 0 && s[0] >> 4 == 4;
+    match (a, b) {
+        (Ok((ha, pa, sa)), Ok((b, sb))) => {
+            witness!(v4 && pa.incomplete, "ok_v4_incomplete");
+            witness!(!v4 && pa.incomplete, "ok_v6_incomplete");
+            witness!(v4 && sa.is_some(), "ok_v4_stop");
+            witness!(!v4 && sa.is_some(), "ok_v6_stop");
+            let tol3 = !v4 && sa.is_none() && is_ipv6_ext(pa.ip_number);
+            match (&ha, &b) {
+                (IpHeaders::Ipv4(h, e), LaxIpSlice::Ipv4(b4)) => {
+                    v4_struct_vs_slice(h, e, &b4.header(), &b4.extensions(), false);
+                }
+                (IpHeaders::Ipv6(h, e), LaxIpSlice::Ipv6(b6)) => {
+                    if tol3 {
+                        same_ipv6_header(h, &b6.header().to_header());
+                    } else {
+                        v6_struct_vs_slice_opt(h, e, &b6.header(), b6.extensions(), false);
+                    }
+                }
+                _ => assert!(false, "C06: from_slice_lax and LaxIpSlice disagree on the IP version"),
+            }
+            if !tol3 {
+                same_lax_ip_payload(&pa, b.payload());
+                same_stop(&lax_stop_from_ip_exts(sa), &lax_stop_from_ipv6_ext(sb));
+            }
+        }
+        (Err(ea), Err(eb)) => {
+            let (fa, fb) = (f_ip_lax(ea), f_ip_lax(eb));
+            witness!(matches!(fa, F::Version(_)), "err_version");
+            witness!(v4 && len < 20 && fa != fb, "tol1_order_of_checks");
+            if v4 {
+                cmp_faults_v4(len, &fb, &fa);
+            } else {
+                assert!(fa == fb, "C06: from_slice_lax and LaxIpSlice reject for different reasons");
+            }
+        }
+        _ => assert!(false, "C06: from_slice_lax and LaxIpSlice disagree on accept/reject"),
+    }
+}
+
+// ------------------------------------------------------------------------------------------
+// (c) T::read(io::Read) vs T::from_slice
+// ------------------------------------------------------------------------------------------
+//
+// The reader is `std::io::Cursor<&[u8]>` over the very slice the slice door gets, so "the slice
+// holds the announced packet" is automatic for the plain headers. Required:
+//   * both accept -> equal header, cursor position == header length (== bytes the slice door cut),
+//   * both reject -> same content reason, or  Len (slice door)  <->  io error of kind UnexpectedEof,
+//   * never accept/reject split.
+// TOL-5 (Ipv6RawExtHeader::read_limited): see `rd_limited_raw`.
+// TOL-4 (Ipv4Header, Ipv6Header): a stream reader sees byte 0 before it can know that the input is
+//   too short; on 1..=19 (IPv4) / 1..=39 (IPv6) bytes with a wrong version nibble `read` reports
+//   the version, `from_slice` the length. Both faults are present; verdicts agree.
+
+fn eof(e: std::io::Error) {
+    assert!(e.kind() == std::io::ErrorKind::UnexpectedEof, "C06: reader failed with something else than UnexpectedEof");
+    forget(e);
+}
+
+fn same_eth2(a: &Ethernet2Header, b: &Ethernet2Header) {
+    same_arr(&a.source, &b.source);
+    same_arr(&a.destination, &b.destination);
+    assert!(a.ether_type == b.ether_type);
+}
+
+fn same_sll(a: &LinuxSllHeader, b: &LinuxSllHeader) {
+    assert!(a.packet_type == b.packet_type);
+    assert!(a.arp_hrd_type == b.arp_hrd_type);
+    assert!(a.sender_address_valid_length == b.sender_address_valid_length);
+    same_arr(&a.sender_address, &b.sender_address);
+    assert!(a.protocol_type == b.protocol_type);
+}
+
+fn same_arp(a: &ArpPacket, b: &ArpPacket) {
+    assert!(a.hw_addr_type == b.hw_addr_type);
+    assert!(a.proto_addr_type == b.proto_addr_type);
+    assert!(a.hw_addr_size() == b.hw_addr_size());
+    assert!(a.protocol_addr_size() == b.protocol_addr_size());
+    assert!(a.operation == b.operation);
+    same_bytes(a.sender_hw_addr(), b.sender_hw_addr());
+    same_bytes(a.sender_protocol_addr(), b.sender_protocol_addr());
+    same_bytes(a.target_hw_addr(), b.target_hw_addr());
+    same_bytes(a.target_protocol_addr(), b.target_protocol_addr());
+}
+
+fn same_tcp(a: &TcpHeader, b: &TcpHeader) {
+    assert!(a.source_port == b.source_port);
+    assert!(a.destination_port == b.destination_port);
+    assert!(a.sequence_number == b.sequence_number);
+    assert!(a.acknowledgment_number == b.acknowledgment_number);
+    assert!(a.ns == b.ns && a.fin == b.fin && a.syn == b.syn && a.rst == b.rst && a.psh == b.psh);
+    assert!(a.ack == b.ack && a.urg == b.urg && a.ece == b.ece && a.cwr == b.cwr);
+    assert!(a.window_size == b.window_size);
+    assert!(a.checksum == b.checksum);
+    assert!(a.urgent_pointer == b.urgent_pointer);
+    same_bytes(a.options.as_slice(), b.options.as_slice());
+}
+
+/// Ethernet2Header / SingleVlanHeader / UdpHeader / Ipv6FragmentHeader: fixed size, no content rule
+pub fn rd_fixed() {
+    use std::io::Cursor;
+    let data: [u8; 16] = any();
+    let len = any_le(16);
+    let s = &data[..len];
+    let which: u8 = any();
+    assume(which < 4);
+    let mut c = Cursor::new(s);
+    match which {
+        0 => match (Ethernet2Header::read(&mut c), Ethernet2Header::from_slice(s)) {
+            (Ok(a), Ok((b, rest))) => {
+                witness!(true, "eth_ok");
+                same_eth2(&a, &b);
+                assert!(c.position() == 14 && rest.len() + 14 == len);
+            }
+            (Err(e), Err(l)) => {
+                witness!(true, "eth_err");
+                eof(e);
+                assert!(l.required_len == 14 && l.len == len);
+            }
+            _ => assert!(false, "C06: Ethernet2Header read/from_slice disagree"),
+        },
+        1 => match (SingleVlanHeader::read(&mut c), SingleVlanHeader::from_slice(s)) {
+            (Ok(a), Ok((b, rest))) => {
+                witness!(true, "vlan_ok");
+                assert!(a == b);
+                assert!(c.position() == 4 && rest.len() + 4 == len);
+            }
+            (Err(e), Err(l)) => {
+                eof(e);
+                assert!(l.required_len == 4 && l.len == len);
+            }
+            _ => assert!(false, "C06: SingleVlanHeader read/from_slice disagree"),
+        },
+        2 => match (UdpHeader::read(&mut c), UdpHeader::from_slice(s)) {
+            (Ok(a), Ok((b, rest))) => {
+                witness!(true, "udp_ok");
+                assert!(a == b);
+                assert!(c.position() == 8 && rest.len() + 8 == len);
+            }
+            (Err(e), Err(l)) => {
+                eof(e);
+                assert!(l.required_len == 8 && l.len == len);
+            }
+            _ => assert!(false, "C06: UdpHeader read/from_slice disagree"),
+        },
+        _ => match (Ipv6FragmentHeader::read(&mut c), Ipv6FragmentHeader::from_slice(s)) {
+            (Ok(a), Ok((b, rest))) => {
+                witness!(true, "frag_ok");
+                same_frag(&a, &b);
+                assert!(c.position() == 8 && rest.len() + 8 == len);
+            }
+            (Err(e), Err(l)) => {
+                witness!(true, "frag_err");
+                eof(e);
+                assert!(l.required_len == 8 && l.len == len);
+            }
+            _ => assert!(false, "C06: Ipv6FragmentHeader read/from_slice disagree"),
+        },
+    }
+}
+
+/// LinuxSllHeader::read vs LinuxSllHeader::from_slice
+pub fn rd_sll() {
+    let data: [u8; 18] = any();
+    let len = any_le(18);
+    let s = &data[..len];
+    let mut c = std::io::Cursor::new(s);
+    match (LinuxSllHeader::read(&mut c), LinuxSllHeader::from_slice(s)) {
+        (Ok(a), Ok((b, rest))) => {
+            witness!(true, "ok");
+            same_sll(&a, &b);
+            assert!(c.position() == 16 && rest.len() + 16 == len);
+        }
+        (Err(ea), Err(eb)) => match (ea, eb) {
+            (err::ReadError::Io(e), err::linux_sll::HeaderSliceError::Len(l)) => {
+                witness!(true, "err_len");
+                eof(e);
+                assert!(l.required_len == 16 && l.len == len);
+            }
+            (err::ReadError::LinuxSll(x), err::linux_sll::HeaderSliceError::Content(y)) => {
+                witness!(true, "err_content");
+                assert!(x == y, "C06: LinuxSllHeader read/from_slice reject for different content reasons");
+            }
+            (ea, _) => {
+                forget(ea);
+                assert!(false, "C06: LinuxSllHeader read/from_slice reject for different reasons");
+            }
+        },
+        (Ok(_), Err(_)) => assert!(false, "C06: LinuxSllHeader::read accepts what from_slice rejects"),
+        (Err(e), Ok(_)) => {
+            forget(e);
+            assert!(false, "C06: LinuxSllHeader::read rejects what from_slice accepts");
+        }
+    }
+}
+
+/// MacsecHeader::read vs MacsecHeader::from_slice
+pub fn rd_macsec() {
+    let data: [u8; 18] = any();
+    let len = any_le(18);
+    let s = &data[..len];
+    let mut c = std::io::Cursor::new(s);
+    match (MacsecHeader::read(&mut c), MacsecHeader::from_slice(s)) {
+        (Ok(a), Ok(b)) => {
+            witness!(a.sci.is_some() && a.next_ether_type().is_some(), "ok_16");
+            witness!(a.sci.is_none() && a.next_ether_type().is_none(), "ok_6");
+            assert!(a == b, "C06: MacsecHeader read/from_slice decode different values");
+            assert!(c.position() == a.header_len() as u64);
+        }
+        (Err(ea), Err(eb)) => match (ea, eb) {
+            (err::macsec::HeaderReadError::Io(e), err::macsec::HeaderSliceError::Len(l)) => {
+                witness!(l.required_len > 6, "err_len_rest");
+                eof(e);
+                assert!(l.len == len);
+            }
+            (err::macsec::HeaderReadError::Content(x), err::macsec::HeaderSliceError::Content(y)) => {
+                witness!(true, "err_content");
+                assert!(x == y, "C06: MacsecHeader read/from_slice reject for different content reasons");
+            }
+            (ea, _) => {
+                forget(ea);
+                assert!(false, "C06: MacsecHeader read/from_slice reject for different reasons");
+            }
+        },
+        (Ok(_), Err(_)) => assert!(false, "C06: MacsecHeader::read accepts what from_slice rejects"),
+        (Err(e), Ok(_)) => {
+            forget(e);
+            assert!(false, "C06: MacsecHeader::read rejects what from_slice accepts");
+        }
+    }
+}
+
+/// ArpPacket::read vs ArpPacket::from_slice
+pub fn rd_arp<const N: usize>() {
+    let data: [u8; N] = any();
+    let len = any_le(N);
+    let s = &data[..len];
+    let mut c = std::io::Cursor::new(s);
+    match (ArpPacket::read(&mut c), ArpPacket::from_slice(s)) {
+        (Ok(a), Ok(b)) => {
+            witness!(a.hw_addr_size() == 6 && a.protocol_addr_size() == 4, "ok_eth_ipv4");
+            witness!(a.hw_addr_size() == 0 && a.protocol_addr_size() > 0, "ok_no_hw");
+            same_arp(&a, &b);
+            assert!(c.position() == a.packet_len() as u64);
+        }
+        (Err(e), Err(l)) => {
+            witness!(l.required_len > 8, "err_len_addrs");
+            eof(e);
+            assert!(l.len == len);
+        }
+        (Ok(_), Err(_)) => assert!(false, "C06: ArpPacket::read accepts what from_slice rejects"),
+        (Err(e), Ok(_)) => {
+            forget(e);
+            assert!(false, "C06: ArpPacket::read rejects what from_slice accepts");
+        }
+    }
+}
+
+/// Ipv4Header::read vs Ipv4Header::from_slice
+pub fn rd_ipv4_header<const N: usize>() {
+    let data: [u8; N] = any();
+    let len = any_le(N);
+    let s = &data[..len];
+    let mut c = std::io::Cursor::new(s);
+    match (Ipv4Header::read(&mut c), Ipv4Header::from_slice(s)) {
+        (Ok(a), Ok((b, rest))) => {
+            witness!(a.options.len() > 0, "ok_options");
+            same_ipv4_header(&a, &b);
+            assert!(c.position() == a.header_len() as u64 && rest.len() + a.header_len() == len);
+        }
+        (Err(ea), Err(eb)) => match (ea, eb) {
+            (err::ipv4::HeaderReadError::Io(e), err::ipv4::HeaderSliceError::Len(l)) => {
+                witness!(l.required_len > 20, "err_len_options");
+                eof(e);
+                assert!(l.len == len);
+            }
+            (err::ipv4::HeaderReadError::Content(x), err::ipv4::HeaderSliceError::Content(y)) => {
+                witness!(true, "err_content");
+                assert!(x == y, "C06: Ipv4Header read/from_slice reject for different content reasons");
+            }
+            (err::ipv4::HeaderReadError::Content(x), err::ipv4::HeaderSliceError::Len(l)) => {
+                // TOL-4
+                witness!(true, "tol4_version_seen_first");
+                assert!(len >= 1 && len < 20 && l.required_len == 20
+                    && x == err::ipv4::HeaderError::UnexpectedVersion { version_number: s[0] >> 4 },
+                    "C06: Ipv4Header::read reports a content fault where from_slice reports a length fault (outside TOL-4)");
+            }
+            (ea, _) => {
+                forget(ea);
+                assert!(false, "C06: Ipv4Header::read reports Io where from_slice reports a content fault");
+            }
+        },
+        (Ok(_), Err(_)) => assert!(false, "C06: Ipv4Header::read accepts what from_slice rejects"),
+        (Err(e), Ok(_)) => {
+            forget(e);
+            assert!(false, "C06: Ipv4Header::read rejects what from_slice accepts");
+        }
+    }
+}
+
+/// Ipv6Header::read vs Ipv6Header::from_slice
+pub fn rd_ipv6_header() {
+    let data: [u8; 42] = any();
+    let len = any_le(42);
+    let s = &data[..len];
+    let mut c = std::io::Cursor::new(s);
+    match (Ipv6Header::read(&mut c), Ipv6Header::from_slice(s)) {
+        (Ok(a), Ok((b, rest))) => {
+            witness!(true, "ok");
+            same_ipv6_header(&a, &b);
+            assert!(c.position() == 40 && rest.len() + 40 == len);
+        }
+        (Err(ea), Err(eb)) => match (ea, eb) {
+            (err::ipv6::HeaderReadError::Io(e), err::ipv6::HeaderSliceError::Len(l)) => {
+                witness!(true, "err_len");
+                eof(e);
+                assert!(l.required_len == 40 && l.len == len);
+            }
+            (err::ipv6::HeaderReadError::Content(x), err::ipv6::HeaderSliceError::Content(y)) => {
+                witness!(true, "err_content");
+                assert!(x == y, "C06: Ipv6Header read/from_slice reject for different content reasons");
+            }
+            (err::ipv6::HeaderReadError::Content(x), err::ipv6::HeaderSliceError::Len(l)) => {
+                // TOL-4
+                witness!(true, "tol4_version_seen_first");
+                assert!(len >= 1 && len < 40 && l.required_len == 40
+                    && x == err::ipv6::HeaderError::UnexpectedVersion { version_number: s[0] >> 4 },
+                    "C06: Ipv6Header::read reports a content fault where from_slice reports a length fault (outside TOL-4)");
+            }
+            (ea, _) => {
+                forget(ea);
+                assert!(false, "C06: Ipv6Header::read reports Io where from_slice reports a content fault");
+            }
+        },
+        (Ok(_), Err(_)) => assert!(false, "C06: Ipv6Header::read accepts what from_slice rejects"),
+        (Err(e), Ok(_)) => {
+            forget(e);
+            assert!(false, "C06: Ipv6Header::read rejects what from_slice accepts");
+        }
+    }
+}
+
+/// Ipv6RawExtHeader::read vs Ipv6RawExtHeader::from_slice
+pub fn rd_raw_ext<const N: usize>() {
+    let data: [u8; N] = any();
+    let len = any_le(N);
+    let s = &data[..len];
+    let mut c = std::io::Cursor::new(s);
+    match (Ipv6RawExtHeader::read(&mut c), Ipv6RawExtHeader::from_slice(s)) {
+        (Ok(a), Ok((b, rest))) => {
+            witness!(a.header_len() > 8, "ok_long");
+            same_raw_ext(&a, &b);
+            assert!(a.header_len() == b.header_len());
+            assert!(c.position() == a.header_len() as u64 && rest.len() + a.header_len() == len);
+        }
+        (Err(e), Err(l)) => {
+            witness!(l.required_len > 8, "err_len_rest");
+            eof(e);
+            assert!(l.len == len);
+        }
+        (Ok(_), Err(_)) => assert!(false, "C06: Ipv6RawExtHeader::read accepts what from_slice rejects"),
+        (Err(e), Ok(_)) => {
+            forget(e);
+            assert!(false, "C06: Ipv6RawExtHeader::read rejects what from_slice accepts");
+        }
+    }
+}
+
+/// IpAuthHeader::read vs IpAuthHeader::from_slice
+pub fn rd_auth<const N: usize>() {
+    let data: [u8; N] = any();
+    let len = any_le(N);
+    let s = &data[..len];
+    let mut c = std::io::Cursor::new(s);
+    match (IpAuthHeader::read(&mut c), IpAuthHeader::from_slice(s)) {
+        (Ok(a), Ok((b, rest))) => {
+            witness!(a.raw_icv().len() > 0, "ok_icv");
+            same_auth(&a, &b);
+            assert!(a.header_len() == b.header_len());
+            assert!(c.position() == a.header_len() as u64 && rest.len() + a.header_len() == len);
+        }
+        (Err(ea), Err(eb)) => match (ea, eb) {
+            (err::ip_auth::HeaderReadError::Io(e), err::ip_auth::HeaderSliceError::Len(l)) => {
+                witness!(l.required_len > 12, "err_len_icv");
+                eof(e);
+                assert!(l.len == len);
+            }
+            (err::ip_auth::HeaderReadError::Content(x), err::ip_auth::HeaderSliceError::Content(y)) => {
+                witness!(true, "err_content");
+                assert!(x == y);
+            }
+            (ea, _) => {
+                forget(ea);
+                assert!(false, "C06: IpAuthHeader read/from_slice reject for different reasons");
+            }
+        },
+        (Ok(_), Err(_)) => assert!(false, "C06: IpAuthHeader::read accepts what from_slice rejects"),
+        (Err(e), Ok(_)) => {
+            forget(e);
+            assert!(false, "C06: IpAuthHeader::read rejects what from_slice accepts");
+        }
+    }
+}
+
+/// Ipv4Extensions::read vs Ipv4Extensions::from_slice (every start ip number)
+pub fn rd_ipv4_exts<const N: usize>() {
+    let data: [u8; N] = any();
+    let len = any_le(N);
+    let s = &data[..len];
+    let start = IpNumber(any());
+    let mut c = std::io::Cursor::new(s);
+    match (Ipv4Extensions::read(&mut c, start), Ipv4Extensions::from_slice(start, s)) {
+        (Ok((a, na)), Ok((b, nb, rest))) => {
+            witness!(a.auth.is_some(), "ok_auth");
+            witness!(a.auth.is_none(), "ok_none");
+            same_ipv4_exts(&a, &b);
+            assert!(na == nb, "C06: Ipv4Extensions read/from_slice name different next headers");
+            assert!(c.position() == a.header_len() as u64 && rest.len() + a.header_len() == len);
+        }
+        (Err(ea), Err(eb)) => match (ea, eb) {
+            (err::ip_auth::HeaderReadError::Io(e), err::ip_auth::HeaderSliceError::Len(l)) => {
+                witness!(true, "err_len");
+                eof(e);
+                assert!(l.len == len);
+            }
+            (err::ip_auth::HeaderReadError::Content(x), err::ip_auth::HeaderSliceError::Content(y)) => {
+                witness!(true, "err_content");
+                assert!(x == y);
+            }
+            (ea, _) => {
+                forget(ea);
+                assert!(false, "C06: Ipv4Extensions read/from_slice reject for different reasons");
+            }
+        },
+        (Ok(_), Err(_)) => assert!(false, "C06: Ipv4Extensions::read accepts what from_slice rejects"),
+        (Err(e), Ok(_)) => {
+            forget(e);
+            assert!(false, "C06: Ipv4Extensions::read rejects what from_slice accepts");
+        }
+    }
+}
+
+/// TcpHeader::read vs TcpHeader::from_slice
+pub fn rd_tcp<const N: usize>() {
+    let data: [u8; N] = any();
+    let len = any_le(N);
+    let s = &data[..len];
+    let mut c = std::io::Cursor::new(s);
+    match (TcpHeader::read(&mut c), TcpHeader::from_slice(s)) {
+        (Ok(a), Ok((b, rest))) => {
+            witness!(a.options.len() == 40, "ok_full_options");
+            same_tcp(&a, &b);
+            assert!(c.position() == a.header_len() as u64 && rest.len() + a.header_len() == len);
+        }
+        (Err(ea), Err(eb)) => match (ea, eb) {
+            (err::tcp::HeaderReadError::Io(e), err::tcp::HeaderSliceError::Len(l)) => {
+                witness!(l.required_len > 20, "err_len_options");
+                eof(e);
+                assert!(l.len == len);
+            }
+            (err::tcp::HeaderReadError::Content(x), err::tcp::HeaderSliceError::Content(y)) => {
+                witness!(true, "err_content");
+                assert!(x == y);
+            }
+            (ea, _) => {
+                forget(ea);
+                assert!(false, "C06: TcpHeader read/from_slice reject for different reasons");
+            }
+        },
+        (Ok(_), Err(_)) => assert!(false, "C06: TcpHeader::read accepts what from_slice rejects"),
+        (Err(e), Ok(_)) => {
+            forget(e);
+            assert!(false, "C06: TcpHeader::read rejects what from_slice accepts");
+        }
+    }
+}
+
+/// Icmpv4Header::read vs Icmpv4Header::from_slice. The timestamp rule of the slice door ("exactly
+/// 20 bytes") depends on the total slice length, so - as the property says - the slice door gets
+/// the slice that ends with the header when the reader's input is longer.
+pub fn rd_icmpv4() {
+    let data: [u8; 24] = any();
+    let len = any_le(24);
+    let s = &data[..len];
+    let timestamp = len >= 2 && (s[0] == 13 || s[0] == 14) && s[1] == 0; // RFC 792 timestamp / reply
+    let t = if timestamp && len > 20 { &s[..20] } else { s };
+    let mut c = std::io::Cursor::new(s);
+    match (Icmpv4Header::read(&mut c), Icmpv4Header::from_slice(t)) {
+        (Ok(a), Ok((b, rest))) => {
+            witness!(timestamp, "ok_timestamp");
+            witness!(!timestamp && len > 8, "ok_other");
+            assert!(a == b, "C06: Icmpv4Header read/from_slice decode different values");
+            assert!(c.position() == a.header_len() as u64 && rest.len() + a.header_len() == t.len());
+        }
+        (Err(e), Err(l)) => {
+            witness!(timestamp && len >= 8, "err_timestamp_short");
+            eof(e);
+            assert!(l.len == len);
+        }
+        (Ok(_), Err(_)) => assert!(false, "C06: Icmpv4Header::read accepts what from_slice rejects"),
+        (Err(e), Ok(_)) => {
+            forget(e);
+            assert!(false, "C06: Icmpv4Header::read rejects what from_slice accepts");
+        }
+    }
+}
+
+/// Icmpv6Header::read vs Icmpv6Header::from_slice
+pub fn rd_icmpv6() {
+    let data: [u8; 12] = any();
+    let len = any_le(12);
+    let s = &data[..len];
+    let mut c = std::io::Cursor::new(s);
+    match (Icmpv6Header::read(&mut c), Icmpv6Header::from_slice(s)) {
+        (Ok(a), Ok((b, rest))) => {
+            witness!(len > 8, "ok");
+            assert!(a == b, "C06: Icmpv6Header read/from_slice decode different values");
+            assert!(c.position() == 8 && rest.len() + 8 == len);
+        }
+        (Err(e), Err(l)) => {
+            witness!(true, "err");
+            eof(e);
+            assert!(l.required_len == 8 && l.len == len);
+        }
+        (Ok(_), Err(_)) => assert!(false, "C06: Icmpv6Header::read accepts what from_slice rejects"),
+        (Err(e), Ok(_)) => {
+            forget(e);
+            assert!(false, "C06: Icmpv6Header::read rejects what from_slice accepts");
+        }
+    }
+}
+
+// ---- read_limited: the LimitedReader enforces an outer length; the slice door gets the slice cut
+//      to that length ("the slice that holds the announced packet")
+
+fn any_len_source() -> LenSource {
+    let k: u8 = any();
+    assume(k < 4);
+    match k {
+        0 => LenSource::Slice,
+        1 => LenSource::Ipv4HeaderTotalLen,
+        2 => LenSource::Ipv6HeaderPayloadLen,
+        _ => LenSource::UdpHeaderLen,
+    }
+}
+
+/// limit error of the reader == length error of the slice door on the cut slice, relabelled with
+/// the reader's length source and start offset
+fn same_limit(lim: &LenError, sl: &LenError, src: LenSource, off: usize, max_len: usize) {
+    assert!(lim.required_len == sl.required_len, "C06: limited reader and slice door demand different lengths");
+    assert!(lim.len == max_len && sl.len == max_len);
+    assert!(lim.layer == sl.layer, "C06: limited reader and slice door name different layers");
+    assert!(lim.len_source == src && sl.len_source == LenSource::Slice);
+    assert!(lim.layer_start_offset == off && sl.layer_start_offset == 0);
+}
+
+/// Ipv6FragmentHeader::read_limited vs Ipv6FragmentHeader::from_slice
+pub fn rd_limited_frag<const N: usize>() {
+    use etherparse::io::LimitedReader;
+    use std::io::Cursor;
+    let data: [u8; N] = any();
+    let len = any_le(N);
+    let s = &data[..len];
+    let max_len = any_le(N);
+    assume(max_len <= len);
+    let cut = &s[..max_len];
+    let src = any_len_source();
+    let off = any_le(1000);
+    let mut r = LimitedReader::new(Cursor::new(s), max_len, src, off, Layer::Ipv6Header);
+    match (Ipv6FragmentHeader::read_limited(&mut r), Ipv6FragmentHeader::from_slice(cut)) {
+        (Ok(a), Ok((b, _))) => {
+            witness!(true, "frag_ok");
+            same_frag(&a, &b);
+            assert!(r.take_reader().position() == 8);
+        }
+        (Err(err::io::LimitedReadError::Len(x)), Err(y)) => {
+            witness!(true, "frag_limit");
+            same_limit(&x, &y, src, off, max_len);
+        }
+        (Err(e), _) => {
+            forget(e);
+            assert!(false, "C06: Ipv6FragmentHeader::read_limited fails differently from from_slice");
+        }
+        _ => assert!(false, "C06: Ipv6FragmentHeader::read_limited accepts what from_slice rejects"),
+    }
+}
+
+/// Ipv6RawExtHeader::read_limited vs Ipv6RawExtHeader::from_slice
+pub fn rd_limited_raw<const N: usize>() {
+    use etherparse::io::LimitedReader;
+    use std::io::Cursor;
+    let data: [u8; N] = any();
+    let len = any_le(N);
+    let s = &data[..len];
+    let max_len = any_le(N);
+    assume(max_len <= len);
+    let cut = &s[..max_len];
+    let src = any_len_source();
+    let off = any_le(1000);
+    let mut r = LimitedReader::new(Cursor::new(s), max_len, src, off, Layer::Ipv6Header);
+    match (Ipv6RawExtHeader::read_limited(&mut r), Ipv6RawExtHeader::from_slice(cut)) {
+        (Ok(a), Ok((b, _))) => {
+            witness!(a.header_len() > 8, "raw_ok_long");
+            same_raw_ext(&a, &b);
+            assert!(r.take_reader().position() == a.header_len() as u64);
+        }
+        (Err(err::io::LimitedReadError::Len(x)), Err(y)) => {
+            witness!(x.required_len > 8, "raw_limit_rest");
+            if max_len < 8 {
+                // TOL-5: the slice door demands the 8-byte minimum before it looks at the length
+                // byte; the reader takes the 2 fixed bytes first and then demands the announced
+                // rest, so below 8 available bytes it names 2 or (hdr_ext_len+1)*8 instead of 8.
+                // Every one of these demands is unmet; the rest of the error must agree.
+                witness!(x.required_len != y.required_len, "tol5_chunked_demand");
+                assert!(y.required_len == 8);
+                assert!(x.required_len == 2 || (max_len >= 2 && x.required_len == (usize::from(s[1]) + 1) * 8),
+                    "C06: limited reader demands a length that is neither its 2-byte chunk nor the announced header length");
+                let mut x2 = x.clone();
+                x2.required_len = 8;
+                same_limit(&x2, &y, src, off, max_len);
+            } else {
+                same_limit(&x, &y, src, off, max_len);
+            }
+        }
+        (Err(e), _) => {
+            forget(e);
+            assert!(false, "C06: Ipv6RawExtHeader::read_limited fails differently from from_slice");
+        }
+        _ => assert!(false, "C06: Ipv6RawExtHeader::read_limited accepts what from_slice rejects"),
+    }
+}
+
+/// IpAuthHeader::read_limited vs IpAuthHeader::from_slice
+pub fn rd_limited_auth<const N: usize>() {
+    use etherparse::io::LimitedReader;
+    use std::io::Cursor;
+    let data: [u8; N] = any();
+    let len = any_le(N);
+    let s = &data[..len];
+    let max_len = any_le(N);
+    assume(max_len <= len);
+    let cut = &s[..max_len];
+    let src = any_len_source();
+    let off = any_le(1000);
+    let mut r = LimitedReader::new(Cursor::new(s), max_len, src, off, Layer::Ipv6Header);
+    match (IpAuthHeader::read_limited(&mut r), IpAuthHeader::from_slice(cut)) {
+        (Ok(a), Ok((b, _))) => {
+            witness!(a.raw_icv().len() > 0, "auth_ok_icv");
+            same_auth(&a, &b);
+            assert!(r.take_reader().position() == a.header_len() as u64);
+        }
+        (Err(ea), Err(eb)) => match (ea, eb) {
+            (err::ip_auth::HeaderLimitedReadError::Len(x), err::ip_auth::HeaderSliceError::Len(y)) => {
+                witness!(x.required_len > 12, "auth_limit_icv");
+                same_limit(&x, &y, src, off, max_len);
+            }
+            (err::ip_auth::HeaderLimitedReadError::Content(x), err::ip_auth::HeaderSliceError::Content(y)) => {
+                witness!(true, "auth_content");
+                assert!(x == y);
+            }
+            (ea, _) => {
+                forget(ea);
+                assert!(false, "C06: IpAuthHeader::read_limited fails differently from from_slice");
+            }
+        },
+        (Err(e), Ok(_)) => {
+            forget(e);
+            assert!(false, "C06: IpAuthHeader::read_limited rejects what from_slice accepts");
+        }
+        _ => assert!(false, "C06: IpAuthHeader::read_limited accepts what from_slice rejects"),
+    }
+}
+
+// ------------------------------------------------------------------------------------------
+// (b) whole-packet doors
+// ------------------------------------------------------------------------------------------
+//
+// from_ethernet(s)  vs  from_ether_type(ether type of s, &s[14..]):  everything below the link
+// layer must be the same ranges / values, the link entry is door specific (Ethernet2 slice or
+// header versus the bare ether payload) but must describe the same payload, errors are equal
+// after shifting `layer_start_offset` of the second door by 14.
+// from_ether_type(IPV4|IPV6, s)  vs  from_ip(s):  same net / transport / payload; errors equal
+// (TOL-1 / TOL-2 apply: the strict ether-type doors use the version-specific IP decoder, from_ip
+// the dispatching one).
+// Frames shorter than 14 bytes have no second door and are not compared.
+
+fn same_ether_payload(a: &EtherPayloadSlice, b: &EtherPayloadSlice) {
+    assert!(a.ether_type == b.ether_type);
+    assert!(a.len_source == b.len_source);
+    assert!(same_range(a.payload, b.payload), "C06: ether payload range differs");
+}
+
+fn same_lax_ether_payload(a: &LaxEtherPayloadSlice, b: &LaxEtherPayloadSlice) {
+    assert!(a.incomplete == b.incomplete);
+    assert!(a.ether_type == b.ether_type);
+    assert!(a.len_source == b.len_source);
+    assert!(same_range(a.payload, b.payload), "C06: ether payload range differs");
+}
+
+fn same_link_ext(a: Option<&LinkExtSlice>, b: Option<&LinkExtSlice>) {
+    match (a, b) {
+        (None, None) => {}
+        (Some(LinkExtSlice::Vlan(x)), Some(LinkExtSlice::Vlan(y))) => {
+            assert!(same_range(x.slice(), y.slice()), "C06: VLAN range differs");
+        }
+        (Some(LinkExtSlice::Macsec(x)), Some(LinkExtSlice::Macsec(y))) => {
+            assert!(same_range(x.header.slice(), y.header.slice()), "C06: MACsec header range differs");
+            match (&x.payload, &y.payload) {
+                (MacsecPayloadSlice::Unmodified(p), MacsecPayloadSlice::Unmodified(q)) => same_ether_payload(p, q),
+                (MacsecPayloadSlice::Modified(p), MacsecPayloadSlice::Modified(q)) => {
+                    assert!(same_range(p, q), "C06: MACsec payload range differs")
+                }
+                _ => assert!(false, "C06: MACsec payload kind differs"),
+            }
+        }
+        _ => assert!(false, "C06: link extensions differ"),
+    }
+}
+
+fn same_lax_link_ext(a: Option<&LaxLinkExtSlice>, b: Option<&LaxLinkExtSlice>) {
+    match (a, b) {
+        (None, None) => {}
+        (Some(LaxLinkExtSlice::Vlan(x)), Some(LaxLinkExtSlice::Vlan(y))) => {
+            assert!(same_range(x.slice(), y.slice()), "C06: VLAN range differs");
+        }
+        (Some(LaxLinkExtSlice::Macsec(x)), Some(LaxLinkExtSlice::Macsec(y))) => {
+            assert!(same_range(x.header.slice(), y.header.slice()), "C06: MACsec header range differs");
+            match (&x.payload, &y.payload) {
+                (LaxMacsecPayloadSlice::Unmodified(p), LaxMacsecPayloadSlice::Unmodified(q)) => same_lax_ether_payload(p, q),
+                (
+                    LaxMacsecPayloadSlice::Modified { incomplete: i1, payload: p },
+                    LaxMacsecPayloadSlice::Modified { incomplete: i2, payload: q },
+                ) => {
+                    assert!(i1 == i2);
+                    assert!(same_range(p, q), "C06: MACsec payload range differs")
+                }
+                _ => assert!(false, "C06: MACsec payload kind differs"),
+            }
+        }
+        _ => assert!(false, "C06: link extensions differ"),
+    }
+}
+
+fn same_net(a: &Option<NetSlice>, b: &Option<NetSlice>) {
+    match (a, b) {
+        (None, None) => {}
+        (Some(NetSlice::Ipv4(x)), Some(NetSlice::Ipv4(y))) => same_ipv4_slice(x, y),
+        (Some(NetSlice::Ipv6(x)), Some(NetSlice::Ipv6(y))) => same_ipv6_slice(x, y),
+        (Some(NetSlice::Arp(x)), Some(NetSlice::Arp(y))) => {
+            assert!(same_range(x.slice(), y.slice()), "C06: ARP range differs")
+        }
+        _ => assert!(false, "C06: net layer differs"),
+    }
+}
+
+fn same_lax_net(a: &Option<LaxNetSlice>, b: &Option<LaxNetSlice>) {
+    match (a, b) {
+        (None, None) => {}
+        (Some(LaxNetSlice::Ipv4(x)), Some(LaxNetSlice::Ipv4(y))) => same_lax_ipv4_slice(x, y),
+        (Some(LaxNetSlice::Ipv6(x)), Some(LaxNetSlice::Ipv6(y))) => same_lax_ipv6_slice(x, y),
+        (Some(LaxNetSlice::Arp(x)), Some(LaxNetSlice::Arp(y))) => {
+            assert!(same_range(x.slice(), y.slice()), "C06: ARP range differs")
+        }
+        _ => assert!(false, "C06: net layer differs"),
+    }
+}
+
+fn same_transport(a: &Option<TransportSlice>, b: &Option<TransportSlice>) {
+    match (a, b) {
+        (None, None) => {}
+        (Some(TransportSlice::Udp(x)), Some(TransportSlice::Udp(y))) => {
+            assert!(same_range(x.slice(), y.slice()), "C06: UDP range differs");
+            assert!(same_range(x.payload(), y.payload()));
+        }
+        (Some(TransportSlice::Tcp(x)), Some(TransportSlice::Tcp(y))) => {
+            assert!(same_range(x.slice(), y.slice()), "C06: TCP range differs");
+            assert!(x.header_len() == y.header_len());
+        }
+        (Some(TransportSlice::Icmpv4(x)), Some(TransportSlice::Icmpv4(y))) => {
+            assert!(same_range(x.slice(), y.slice()), "C06: ICMPv4 range differs");
+        }
+        (Some(TransportSlice::Icmpv6(x)), Some(TransportSlice::Icmpv6(y))) => {
+            assert!(same_range(x.slice(), y.slice()), "C06: ICMPv6 range differs");
+        }
+        _ => assert!(false, "C06: transport layer differs"),
+    }
+}
+
+fn set_ether_type<const N: usize>(data: &mut [u8; N], et: u16) {
+    // shaped variant: a concrete ether type keeps the link-extension loop out of the formula
+    if et != 0 {
+        data[12] = (et >> 8) as u8;
+        data[13] = et as u8;
+    }
+}
+
+/// SlicedPacket::from_ethernet vs SlicedPacket::from_ether_type. `ET` = 0: any ether type.
+pub fn pk_sliced_eth<const N: usize, const ET: u16>() {
+    let mut data: [u8; N] = any();
+    set_ether_type(&mut data, ET);
+    let len = any_le(N);
+    assume(len >= 14);
+    let s = &data[..len];
+    let et = EtherType(u16::from_be_bytes([s[12], s[13]]));
+    let a = SlicedPacket::from_ethernet(s);
+    let b = SlicedPacket::from_ether_type(et, &s[14..]);
+    match (a, b) {
+        (Ok(a), Ok(b)) => {
+            witness!(a.net.is_some() || !a.link_exts.is_empty(), "ok_below_link");
+            match (&a.link, &b.link) {
+                (Some(LinkSlice::Ethernet2(e)), Some(LinkSlice::EtherPayload(p))) => {
+                    assert!(same_range(e.slice(), s), "C06: Ethernet2 slice is not the input");
+                    same_ether_payload(&e.payload(), p);
+                }
+                _ => assert!(false, "C06: link entries are not the ones the doors document"),
+            }
+            assert!(a.link_exts.len() == b.link_exts.len(), "C06: number of link extensions differs");
+            same_link_ext(a.link_exts.get(0), b.link_exts.get(0));
+            same_link_ext(a.link_exts.get(1), b.link_exts.get(1));
+            same_link_ext(a.link_exts.get(2), b.link_exts.get(2));
+            same_net(&a.net, &b.net);
+            same_transport(&a.transport, &b.transport);
+        }
+        (Err(ea), Err(eb)) => {
+            let (fa, fb) = (f_packet(ea), f_packet(eb).shifted(14));
+            witness!(matches!(&fa, F::Len(l) if l.layer_start_offset > 14), "err_len_deep");
+            witness!(!fa.is_len(), "err_content");
+            assert!(fa == fb, "C06: from_ethernet and from_ether_type reject differently (after +14)");
+        }
+        _ => assert!(false, "C06: SlicedPacket::from_ethernet and from_ether_type disagree on accept/reject"),
+    };
+}
+
+/// SlicedPacket::from_ether_type(IPV4 | IPV6, s) vs SlicedPacket::from_ip(s)
+pub fn pk_sliced_ip<const N: usize, const ET: u16>() {
+    let data: [u8; N] = any();
+    let len = any_le(N);
+    let s = &data[..len];
+    let v4 = ET == 0x0800;
+    if v4 {
+        not_v6(s);
+    } else {
+        not_v4(s);
+    }
+    let right = len > 0 && s[0] >> 4 == (if v4 { 4 } else { 6 });
+    let a = SlicedPacket::from_ether_type(EtherType(ET), s);
+    let b = SlicedPacket::from_ip(s);
+    match (a, b) {
+        (Ok(a), Ok(b)) => {
+            witness!(a.transport.is_some(), "ok_transport");
+            witness!(a.net.is_some() && a.transport.is_none(), "ok_net_only");
+            match (&a.link, &b.link) {
+                (Some(LinkSlice::EtherPayload(p)), None) => {
+                    assert!(p.ether_type == EtherType(ET) && p.len_source == LenSource::Slice && same_range(p.payload, s));
+                }
+                _ => assert!(false, "C06: link entries are not the ones the doors document"),
+            }
+            assert!(a.link_exts.is_empty() && b.link_exts.is_empty());
+            same_net(&a.net, &b.net);
+            same_transport(&a.transport, &b.transport);
+        }
+        (Err(ea), Err(eb)) => {
+            let (fa, fb) = (f_packet(ea), f_packet(eb));
+            witness!(matches!(&fa, F::Len(l) if l.layer_start_offset >= 20), "err_len_deep");
+            witness!(fa != fb, "tol_order_of_checks");
+            if v4 {
+                cmp_faults_v4(len, &fb, &fa);
+            } else {
+                cmp_faults_v6(len, right, &fb, &fa);
+            }
+        }
+        _ => assert!(false, "C06: SlicedPacket::from_ether_type and from_ip disagree on accept/reject"),
+    };
+}
+
+fn stop_of(e: &Option<(err::packet::SliceError, Layer)>, shift: usize) -> Stop {
+    e.clone().map(|(e, l)| (f_packet(e).shifted(shift), l))
+}
+
+/// LaxSlicedPacket::from_ethernet vs LaxSlicedPacket::from_ether_type
+pub fn pk_lax_eth<const N: usize, const ET: u16>() {
+    let mut data: [u8; N] = any();
+    set_ether_type(&mut data, ET);
+    let len = any_le(N);
+    assume(len >= 14);
+    let s = &data[..len];
+    let et = EtherType(u16::from_be_bytes([s[12], s[13]]));
+    let a = match LaxSlicedPacket::from_ethernet(s) {
+        Ok(a) => a,
+        Err(_) => {
+            assert!(false, "C06: LaxSlicedPacket::from_ethernet rejects a frame with a complete Ethernet II header");
+            return;
+        }
+    };
+    let b = LaxSlicedPacket::from_ether_type(et, &s[14..]);
+    witness!(a.net.is_some() || !a.link_exts.is_empty(), "below_link");
+    witness!(matches!(&a.stop_err, Some((err::packet::SliceError::Len(l), _)) if l.layer_start_offset > 14), "stop_len_deep");
+    match (&a.link, &b.link) {
+        (Some(LinkSlice::Ethernet2(e)), Some(LinkSlice::EtherPayload(p))) => {
+            assert!(same_range(e.slice(), s), "C06: Ethernet2 slice is not the input");
+            same_ether_payload(&e.payload(), p);
+        }
+        _ => assert!(false, "C06: link entries are not the ones the doors document"),
+    }
+    assert!(a.link_exts.len() == b.link_exts.len(), "C06: number of link extensions differs");
+    same_lax_link_ext(a.link_exts.get(0), b.link_exts.get(0));
+    same_lax_link_ext(a.link_exts.get(1), b.link_exts.get(1));
+    same_lax_link_ext(a.link_exts.get(2), b.link_exts.get(2));
+    same_lax_net(&a.net, &b.net);
+    same_transport(&a.transport, &b.transport);
+    same_stop(&stop_of(&a.stop_err, 0), &stop_of(&b.stop_err, 14));
+}
+
+/// LaxSlicedPacket::from_ether_type(IPV4, s) vs from_ether_type(IPV6, s) vs from_ip(s)
+/// (the lax ether-type door dispatches on the version nibble for both ether types)
+pub fn pk_lax_ip<const N: usize>() {
+    let data: [u8; N] = any();
+    let len = any_le(N);
+    let s = &data[..len];
+    let a4 = LaxSlicedPacket::from_ether_type(EtherType(0x0800), s);
+    let a6 = LaxSlicedPacket::from_ether_type(EtherType(0x86dd), s);
+    let b = LaxSlicedPacket::from_ip(s);
+    // the two ether types give the same answer
+    assert!(a4.link_exts.is_empty() && a6.link_exts.is_empty());
+    same_lax_net(&a4.net, &a6.net);
+    same_transport(&a4.transport, &a6.transport);
+    same_stop(&stop_of(&a4.stop_err, 0), &stop_of(&a6.stop_err, 0));
+    match (&a4.link, &a6.link) {
+        (Some(LinkSlice::EtherPayload(p)), Some(LinkSlice::EtherPayload(q))) => {
+            assert!(p.ether_type == EtherType(0x0800) && q.ether_type == EtherType(0x86dd));
+            assert!(same_range(p.payload, s) && same_range(q.payload, s));
+        }
+        _ => assert!(false, "C06: link entries are not the ones the doors document"),
+    }
+    match b {
+        Ok(b) => {
+            witness!(b.transport.is_some(), "ok_transport");
+            witness!(b.stop_err.is_some(), "ok_stop");
+            witness!(matches!(&b.net, Some(LaxNetSlice::Ipv6(_))), "ok_v6");
+            assert!(b.link.is_none() && b.link_exts.is_empty());
+            same_lax_net(&a4.net, &b.net);
+            same_transport(&a4.transport, &b.transport);
+            same_stop(&stop_of(&a4.stop_err, 0), &stop_of(&b.stop_err, 0));
+        }
+        Err(e) => {
+            witness!(true, "err");
+            // from_ip rejects where the ether-type door records the same fault as stop error
+            assert!(a4.net.is_none() && a4.transport.is_none());
+            let want: Stop = Some((f_ip_lax(e), Layer::IpHeader));
+            same_stop(&stop_of(&a4.stop_err, 0), &want);
+        }
+    }
+}
+
+// ---- struct based packet doors (PacketHeaders, LaxPacketHeaders): NOT BUILT.
+// Every door of these two families runs IpHeaders::from_ipv4_slice / from_ipv6_slice (or the
+// dispatching from_slice*) on its IP arm; the `IpHeaders` / `NetHeaders` values are ~9 KB enums
+// and one such door already costs 3-8 GB under CBMC. Two doors in one formula - which is what a
+// differential check needs - were measured at > 18 GB (out of memory at the 20 GB cap) for
+//   PacketHeaders::from_ethernet_slice vs from_ether_type      (ARP shaped, N = 44; link shaped, N = 24)
+//   LaxPacketHeaders::from_ethernet    vs from_ether_type      (same shapes)
+// even with a concrete ether type (CBMC does not prune the IP arms). The pairs are listed as
+// outside the claim in reg/c06.py. What they call underneath is compared door by door in family
+// (a): from_ipv4_slice / from_ipv6_slice / from_slice and their lax twins.
+
+crate::harnesses! {
+    c06_ip4_strict_slices = ip4_strict_slices::<44>; unwind 2,
+    c06_ip4_lax_slices = ip4_lax_slices::<44>; unwind 2,
+    c06_ip6_strict_slices_48 = ip6_strict_slices::<48>; unwind 2,
+    c06_ip6_lax_slices_48 = ip6_lax_slices::<48>; unwind 2,
+    c06_ip6_strict_slices_56 = ip6_strict_slices::<56>; unwind 3,
+    c06_ip6_lax_slices_56 = ip6_lax_slices::<56>; unwind 3,
+    c06_rd_fixed = rd_fixed; unwind 2,
+    c06_rd_sll = rd_sll; unwind 2,
+    c06_rd_macsec = rd_macsec; unwind 2,
+    c06_rd_arp = rd_arp::<30>; unwind 2,
+    c06_rd_ipv4_header = rd_ipv4_header::<64>; unwind 2,
+    c06_rd_ipv6_header = rd_ipv6_header; unwind 2,
+    c06_rd_raw_ext = rd_raw_ext::<26>; unwind 2,
+    c06_rd_auth = rd_auth::<28>; unwind 2,
+    c06_rd_ipv4_exts = rd_ipv4_exts::<28>; unwind 2,
+    c06_rd_tcp = rd_tcp::<64>; unwind 2,
+    // derived == on Icmpv4Type / Icmpv6Type compares [u8; 4] members through memcmp: 4 bytes + 1
+    c06_rd_icmpv4 = rd_icmpv4; unwind 6,
+    c06_rd_icmpv6 = rd_icmpv6; unwind 6,
+    c06_rd_limited_frag = rd_limited_frag::<12>; unwind 2,
+    c06_rd_limited_raw = rd_limited_raw::<26>; unwind 2,
+    c06_rd_limited_auth = rd_limited_auth::<28>; unwind 2,
+    // any ether type, at most one complete link extension (a second VLAN/MACsec header cannot be
+    // complete in 7 bytes): loop body runs twice
+    c06_pk_sliced_eth_21 = pk_sliced_eth::<21, 0>; unwind 2,
+    c06_pk_lax_eth_21 = pk_lax_eth::<21, 0>; unwind 2,
+    c06_pk_sliced_eth_ip4 = pk_sliced_eth::<58, 0x0800>; unwind 2,
+    c06_pk_lax_eth_ip4 = pk_lax_eth::<58, 0x0800>; unwind 2,
+    c06_pk_sliced_ip4 = pk_sliced_ip::<44, 0x0800>; unwind 2,
+    c06_pk_sliced_ip6 = pk_sliced_ip::<56, 0x86dd>; unwind 3,
+    c06_pk_lax_ip = pk_lax_ip::<56>; unwind 3,
+    c06_pk_sliced_eth_ip6 = pk_sliced_eth::<62, 0x86dd>; unwind 2,
+    c06_pk_lax_eth_ip6 = pk_lax_eth::<62, 0x86dd>; unwind 2,
+    c06_ip4_hdr_strict = ip4_hdr_strict::<44>; unwind 1,
+    c06_ip4_hdr_lax = ip4_hdr_lax::<44>; unwind 1,
+    c06_ip6_hdr_strict = ip6_hdr_strict::<47>; unwind 1,
+    c06_ip6_hdr_lax = ip6_hdr_lax::<47>; unwind 1,
+    // ip_hdr_strict_dispatch::<47> (IpHeaders::from_slice vs IpSlice::from_slice) is NOT registered:
+    // it went through once (481 s, 13.8 GB resident) and ran out of memory at the 20 GB cap in the
+    // next two runs - a check that only sometimes fits is not a check. The body is kept for a
+    // machine with more memory:  c06_ip_hdr_strict_dispatch = ip_hdr_strict_dispatch::<47>; unwind 1,
+    c06_ip_hdr_lax_dispatch = ip_hdr_lax_dispatch::<47>; unwind 1,
+}
